@@ -483,6 +483,7 @@ func checkC04(c *Ctx) {
 	laReadCounter(c, "SR-count")
 	runTD(c, "TD", map[string]bool{"reader": true})
 	footerRejects(c, footerPathFns(c))
+	laFooterMeta(c, "LA-footer", map[string]bool{"rows": true, "seek": true})
 	_, t, _ := srcAnalysis(c)
 	runSR(c.U, r, t, func(f *ssa.Function) bool { return !c.U.isCtl(f) })
 	r.assume("value-level decoding correctness (levels, runs, PLAIN values, page chains) is NOT decided by this check")
@@ -499,6 +500,7 @@ func checkC16(c *Ctx) {
 	r.floor("EP/introspection/primitive", 4, "getMetaDataSize x2, ReadMetaData x2 (+constructor), PageHeadersAtOffset Seek x2, PageHeader")
 	laWalk(c, "LA-walk")
 	footerRejects(c, footerPathFns(c))
+	laFooterMeta(c, "LA-footer", map[string]bool{"seek": true})
 	r.assume("equality of the listing with an independent walk of arbitrary files is value-level and NOT decided")
 }
 
